@@ -308,7 +308,7 @@ def run(tier, seed):
     common.Report.finish = finish
     try:
         return base.run_state_property(
-            PROP, LEVEL, state_fn, tier, seed, which=base.NO_LONG, reduced=base.REDUCED_LIGHT, params=params, flavours=(0, 1, 2, 4, 5),
+            PROP, LEVEL, state_fn, tier, seed, thorough_full=(0, 1), which=base.NO_LONG, reduced=base.REDUCED_LIGHT, params=params, flavours=(0, 1, 2, 4, 5),
             vacuity={'states_reciprocal': 10, 'states_multi_run': 10, 'states_selfloop': 5}, sample_fn=samples,
             assumptions=['files are written to a private scratch directory (/dev/shm or the system temp dir) removed at exit',
                          'encodings are ASCII-compatible (utf-8, latin-1, ascii); non-ASCII ids only with the first two'],
